@@ -1,4 +1,4 @@
-"""Fake external MSA program for the C20 check (ClustalO / MUSCLE 3 / MUSCLE 5 / MAFFT command lines).
+"""Fake external program for the C20 check (ClustalO / MUSCLE 3 / MUSCLE 5 / MAFFT / tantan command lines).
 
 Behaviour = basename of the executable that exec'd this file (see the stubs next to it):
   ok reorder garbage_empty garbage_ragged garbage_missing garbage_length garbage_tree exit3 hang
@@ -85,6 +85,13 @@ def main():
     elif "--treeout" in args:                # mafft
         inp, out, to_stdout = args[-1], None, True
         trees = [inp + ".tree"]
+    elif "-x" in args:                       # tantan: masked FASTA on stdout (result parsing is out of scope: always valid)
+        for name, seq in read_fasta(args[-1]):
+            sys.stdout.write(f">{name}\n{seq[:1].replace(seq[:1], '!')}{seq[1:]}\n")
+        if behaviour == "sigkill":
+            die()
+        emit(event="exit", code=0)
+        return 0
     elif "--plain" in args:                  # bare LocalApp: no files at all
         sys.stdout.write("plain output\n")
         if behaviour == "sigkill":
